@@ -297,6 +297,16 @@ def cli_stream(run, cli, rng, tier):
                 argv += [k, name + '=' + val] if rng.random() < 0.85 else [k, name]
             mode = rng.choice([[], ['-S'], ['-y'], ['--no-trailing-newline'], ['-t', '1'], ['-s', '3']])
             jobs.append((mode + argv + ['-e', p], None))
+        # every pair of binding kinds giving the SAME name twice (ext and TLA families): a diagnosed error, never a crash
+        open(os.path.join(tmp, 'val.txt'), 'w').write('1')
+        ext_kinds = [('--ext-str', 'x=a'), ('--ext-str-file', 'x=' + os.path.join(tmp, 'val.txt')),
+                     ('--ext-code', 'x=1'), ('--ext-code-file', 'x=' + os.path.join(tmp, 'val.txt'))]
+        tla_kinds = [('--tla-str', 'x=a'), ('--tla-str-file', 'x=' + os.path.join(tmp, 'val.txt')),
+                     ('--tla-code', 'x=1'), ('--tla-code-file', 'x=' + os.path.join(tmp, 'val.txt'))]
+        for fam, prog in ((ext_kinds, 'std.extVar("x")'), (tla_kinds, 'function(x) x')):
+            for k1, v1 in fam:
+                for k2, v2 in fam:
+                    jobs.append(([k1, v1, k2, v2, '-e', prog], None))
         # deep nesting probes (source text nested d levels) -> native recursion in the parser
         for d in ([300, 3000] if tier == 'quick' else [300, 3000, 30000]) + [200000]:
             for shape in DEEP_SHAPES:
